@@ -182,7 +182,7 @@ def insertKV (kv : Str × Str) : List (Str × Str) → List (Str × Str)
   | h :: t => if ltStr kv.1 h.1 then kv :: h :: t else h :: insertKV kv t
 
 /-- parameters are a map (`map[string]string`): their order is not data; listed by key -/
-def sortKV (l : List (Str × Str)) : List (Str × Str) := l.foldr insertKV []
+def sortKV (l : List (Str × Str)) : List (Str × Str) := l.foldl (fun m kv => insertKV kv m) []
 
 /-- MIME parameter names are case-insensitive tokens; the client delivers them lower-cased -/
 def canonParams (p : Params) : Params := normOpt (p.map fun l => sortKV (l.map fun kv => (lower kv.1, kv.2)))
